@@ -1,0 +1,98 @@
+//go:build verif
+
+package backupfs
+
+// Hooks for the external verification harness. This file only adds thin
+// exported wrappers around unexported helpers; it is compiled only with
+// the build tag "verif" and changes nothing otherwise.
+
+import (
+	"io/fs"
+)
+
+func VerifPrefixPath(s *PrefixFS, name string) (string, error) { return s.prefixPath(name) }
+
+func VerifPrefix(s *PrefixFS) string { return s.prefix }
+
+func VerifVolumePrefixPath(v *VolumeFS, name string) (string, error) { return v.prefixPath(name) }
+
+func VerifVolume(v *VolumeFS) string { return v.volume }
+
+func VerifHiddenPaths(h *HiddenFS) []string { return append([]string(nil), h.hiddenPaths...) }
+
+func VerifIsHidden(name string, hiddenPaths []string) (bool, error) {
+	return isHidden(name, hiddenPaths)
+}
+
+func VerifIsInHiddenPath(name, hiddenDir string) (string, bool, error) {
+	return isInHiddenPath(name, hiddenDir)
+}
+
+func VerifIsParentOfHiddenDir(name string, hiddenPaths []string) (bool, error) {
+	return isParentOfHiddenDir(name, hiddenPaths)
+}
+
+func VerifDirContains(parent, subdir string) (bool, error) { return dirContains(parent, subdir) }
+
+func VerifToAbsSymlink(oldname, newname string) string { return toAbsSymlink(oldname, newname) }
+
+func VerifIsAbs(name string) bool { return isAbs(name) }
+
+func VerifRealPath(fsys *BackupFS, name string) (string, error) { return fsys.realPath(name) }
+
+func VerifRealPathWithFound(fsys *BackupFS, name string) (string, bool, error) {
+	return fsys.realPathWithFound(name)
+}
+
+// VerifResolver is the interface resolvePathWithInfo needs.
+type VerifResolver interface {
+	Lstat(name string) (fs.FileInfo, error)
+	Readlink(name string) (string, error)
+}
+
+func VerifResolvePathWithInfo(fsys VerifResolver, filePath string) (string, fs.FileInfo, error) {
+	return resolvePathWithInfo(fsys, filePath)
+}
+
+func VerifToFInfo(filePath string, fi fs.FileInfo) fs.FileInfo { return toFInfo(filePath, fi) }
+
+func VerifNewFInfo(name string, mode uint32, modTime, size int64, uid, gid int) fs.FileInfo {
+	return &fInfo{FileName: name, FileMode: mode, FileModTime: modTime, FileSize: size, FileUid: uid, FileGid: gid}
+}
+
+func VerifFInfoFields(fi fs.FileInfo) (name string, mode uint32, modTime, size int64, uid, gid int, ok bool) {
+	f, ok := fi.(*fInfo)
+	if !ok {
+		return "", 0, 0, 0, 0, 0, false
+	}
+	return f.FileName, f.FileMode, f.FileModTime, f.FileSize, f.FileUid, f.FileGid, true
+}
+
+func VerifToUID(fi fs.FileInfo) int { return toUID(fi) }
+
+func VerifToGID(fi fs.FileInfo) int { return toGID(fi) }
+
+func VerifNewHiddenFile(f File, filePath string, hiddenPaths []string) File {
+	return newHiddenFile(f, filePath, hiddenPaths)
+}
+
+func VerifNewPrefixFile(f File, filePath, prefix string) File {
+	return newPrefixFile(f, filePath, prefix)
+}
+
+func VerifNewPrefixFileInfo(fi fs.FileInfo, filePath, prefix string) fs.FileInfo {
+	return newPrefixFileInfo(fi, filePath, prefix)
+}
+
+func VerifEqualMode(a, b fs.FileMode) bool { return equalMode(a, b) }
+
+func VerifIsNotFoundError(err error) bool { return isNotFoundError(err) }
+
+// VerifMuLocked reports whether the BackupFS mutex is currently held.
+func VerifMuLocked(fsys *BackupFS) bool {
+	if fsys.mu.TryLock() {
+		fsys.mu.Unlock()
+		return false
+	}
+	return true
+}
